@@ -11,7 +11,7 @@ NA = {
  "C08": "scope arithmetic on argv indices; pure function of (definition, argv) (DESIGN.md section 2)",
  "C09": "tokeniser switch and strictness tag; pure function of (definition, argv) (DESIGN.md section 2)",
  "C10": "decided inside run_inner from argv alone; its process-level half (help never runs the program body) is the body-reached-iff-value invariant checked by the C11 check (DESIGN.md section 2)",
- "C12": "help text is a pure function of the metadata tree; the only ambient input to help, the env suffix, is checked by the C18 check rule R6 (DESIGN.md section 2)",
+ "C12": "help text is a pure function of the metadata tree; the only ambient input to help, the env suffix, is looked at by the C18 check rule R14 in its wording-free parts (DESIGN.md section 7)",
  "C13": "width is a caller argument, bpaf never queries a terminal; rendering is a pure string function (DESIGN.md section 2)",
  "C14": "candidate set is a pure function of (definition, partial argv); no shell, stream or history in the loop (DESIGN.md section 2)",
  "C15": "string-to-string renderers; a single request/response with no concurrency, loss, reordering or fault to simulate (DESIGN.md section 2)",
